@@ -41,13 +41,14 @@ void h_exit_hook(void) {
 }
 static int is_release(int kind) { return kind == 6 || kind == 7 || kind == 10; }
 
-static void body_entry(const int kind, const uint32_t mode) {
+static void body_entry(const int kind, const uint32_t mode_) {
+  const uint32_t mode = mode_ == 3 ? 2 : mode_;       /* mode 3 = thread-safe mode restored after a save/disable bracket: same obligations as mode 2 */
   h_init();
   IN_U32(unused); (void)unused;
   h_mode(2);                                    /* a block to release / reallocate, obtained in thread-safe mode */
   uint8_t* blk = 0;
   if (kind == 6) blk = h_entry(0, 0); else if (kind == 7) blk = h_entry(3, 0); else if (kind == 9 || kind == 10) blk = h_entry(8, 0);
-  h_mode(mode);
+  h_mode(mode_);
   if (mode == 0 && (is_release(kind) || kind == 9)) { WITNESS("skipped"); return; }   /* releasing a tracked block with overloads off is a usage error */
   uint32_t l0 = env_mutex_lock_calls, u0 = env_mutex_unlock_calls, d0 = det_calls;
   watching = (mode == 2); invalidated = 0; dealloc_seen = 0;
@@ -80,7 +81,7 @@ static void body_entry(const int kind, const uint32_t mode) {
   CHECK(!exited, "no failure");
   WITNESS("end");
 }
-#define E1(k) HARNESS(harness_entry_##k##_0) { body_entry(k, 0); } HARNESS(harness_entry_##k##_1) { body_entry(k, 1); } HARNESS(harness_entry_##k##_2) { body_entry(k, 2); }
+#define E1(k) HARNESS(harness_entry_##k##_0) { body_entry(k, 0); } HARNESS(harness_entry_##k##_1) { body_entry(k, 1); } HARNESS(harness_entry_##k##_2) { body_entry(k, 2); } HARNESS(harness_entry_##k##_3) { body_entry(k, 3); }
 E1(0) E1(2) E1(3) E1(5) E1(6) E1(7) E1(8) E1(9) E1(10)   /* the nothrow overloads (1, 4) exist only with the standard C++ library: not in the verified configuration */
 
 /* known finding: a misuse detected in thread-safe mode leaves by longjmp with the lock held */
